@@ -135,7 +135,11 @@ CLAIMS = {
          "literal, tuple projection, enum payload via match, double negation, nested && / ||, array_get / vec_get of a call, int32_to_string of a "
          "call, call of a closure variable) with the left operand of && / || deciding and not deciding. Translator: the guard of the "
          "EBinary{And|Or} arm and the immediates of anf_imm are regenerated from anf.rs (Gen/AnfGuards.lean); the model's trivialRhs reads the "
-         "table and trivialRhs_eq_isAtom, on which the preservation proofs rest, re-checks it.",
+         "table and trivialRhs_eq_isAtom, on which the preservation proofs rest, re-checks it. Further forms destructure literal right-hand sides "
+         "(tuple, nested tuple, struct literal, constructor application; let and match; every mix of named and `_` components, an effect under "
+         "every component) at function level, in loop bodies, in arms and as last statement, and put `go` first / middle / last in while bodies, "
+         "branches and arms inside them, nested loops, closure bodies and function bodies, followed by effects and the loop-counter update; a stage "
+         "that runs out of (small) fuel while the reference stage finishes is reported as does-not-terminate.",
     design_ref="§5 C09, §C09 — as built",
     note="Proved: the theorems above, about Model/Anf.lean and Sem. Caveat in the theorems: a source run that goes wrong (Fail.stuck = ill-typed IR) "
          "is only required to be matched by some outcome (ANF names all operands before the operation, so it notices an ill-typed operand later); "
